@@ -631,3 +631,97 @@ def wcnf_view(snap):
     """(hard items, soft items) of a WCNF snapshot, normalised."""
     assert snap[0] == "wcnf"
     return [norm_witem(i) for i in snap[2]], [norm_witem(i) for i in snap[3]]
+
+
+# ----------------------------------------------------------------------------------------------
+# pure Boolean helpers written as search loops
+# ----------------------------------------------------------------------------------------------
+def paths_to_pred(paths):
+    """The Boolean result of a side-effect-free function as one predicate over its decision atoms.  A generic loop left
+    by an early exit contributes ∃x∈fam: exit-guard(x); a loop run to completion ∀x∈fam: no exit-guard(x) - the
+    quantifier reading of a search loop.  Returns None when a path's outcome or decisions cannot be read this way."""
+    alts = []
+    for p in paths:
+        if p.outcome[0] != "return":
+            return None
+        rv = returned_bool(None, p.outcome[1])
+        if rv[0] == "truthy":
+            return None
+        loops = {ev.id: ev for ev, Q in iter_events(p.events) if ev.kind == "loop" and not Q}
+        conj = []
+        for key, val in p.decisions:
+            if key[0] == "loopexit":
+                lp = loops.get(key[1])
+                if lp is None:
+                    return None
+                b = lp.evar
+
+                def gpred(case):
+                    gs = [(k if v else ("not", k)) for k, v in case.guard]
+                    return ("and", tuple(gs)) if len(gs) != 1 else gs[0]
+
+                exits = lp.data.get("exits") or []
+                for c in exits:
+                    if any(ev.kind not in ("return", "leave", "enter") for ev, Q in iter_events(c.events) if ev.kind in ("list.append", "dict.set", "attr.set", "solver.assert", "recurse")):
+                        return None
+                if val == "complete":
+                    for c in exits:
+                        conj.append(("forall", b, lp.fam, PTRUE, ("not", gpred(c))))
+                else:
+                    conj.append(("exists", b, lp.fam, PTRUE, gpred(exits[val])))
+            else:
+                conj.append(key if val is True else ("not", key) if val is False else None)
+                if conj[-1] is None:
+                    return None
+        conj.append(rv)
+        alts.append(("and", tuple(conj)) if len(conj) != 1 else conj[0])
+    if not alts:
+        return None
+    return ("or", tuple(alts)) if len(alts) != 1 else alts[0]
+
+
+def _subst_markers(x, mapping):
+    if isinstance(x, tuple):
+        if x in mapping:
+            return mapping[x]
+        return tuple(_subst_markers(i, mapping) for i in x)
+    return x
+
+
+def bool_helper_summary(ex, qual, roles=("set", "key")):
+    """Summary for a module-level Boolean helper over collections: its result as a predicate of the actual arguments
+    (quantifier reading of search loops); falls back to inlining when the helper cannot be read that way."""
+    cache = {}
+
+    def formal_pred(I0):
+        if "p" in cache:
+            return cache["p"]
+        fi = ex.prog.function(qual)
+        n = len(fi.node.args.args)
+
+        def setup(I):
+            return [ElemV(("formal", i), "coll", roles[0], roles[1]) for i in range(n)], {}
+
+        try:
+            sub = Interp(ex.prog, summaries={k: v for k, v in I0.summaries.items() if k != qual}, max_depth=I0.max_depth)
+            paths = sub.explore(qual, setup)
+            cache["p"] = paths_to_pred(paths)
+        except AnalysisError:
+            cache["p"] = None
+        return cache["p"]
+
+    def h(I, fi, args, kwargs, node):
+        p = formal_pred(I)
+        actual = []
+        for a in args:
+            c = I.as_coll(a) if not isinstance(a, ElemV) else a
+            actual.append(c.var if c is not None else None)
+        if p is None or kwargs or any(a is None for a in actual):
+            return I.call_function(fi, args, kwargs, node, force_inline=True)
+        q = _subst_markers(p, {("formal", i): a for i, a in enumerate(actual)})
+        I.log("helper", node, func=qual, pred=q)
+        if q[0] == "const":
+            return Const(q[1])
+        return PredV(q)
+
+    return h
